@@ -6,6 +6,7 @@ Nothing here judges the property: the module renders cases to text, feeds lines,
 lines into words, and maps TLC's findings back to cases."""
 import json
 import multiprocessing
+from . import core as _core
 import os
 import re
 import shutil
@@ -381,8 +382,7 @@ def replay(ctx, jobs, nproc=12, tag="r", pipeline=True):
                      os.path.join(ctx.scratch, "%s-trace%d.ndjson" % (tag, n)), pipeline))
     if nproc == 1:
         return [_worker(args[0])]
-    with multiprocessing.Pool(nproc) as pool:
-        return pool.map(_worker, args)
+    return _core.pool_map(_worker, args, nproc)
 
 
 # ---- validation (TLC is the oracle) ----------------------------------------------------------------------------
